@@ -108,7 +108,19 @@ func c12Agreement(c *vh.Case) {
 	}
 	var got atomic.Value
 	var calls atomic.Int64
-	server := mcp.NewServer(&mcp.Implementation{Name: "s", Version: "1"}, nil)
+	// 1/3: the server pages its tool list and the annotated tool is not on the first page
+	var sopts *mcp.ServerOptions
+	fillers := 0
+	if r.Chance(1, 3) {
+		sopts = &mcp.ServerOptions{PageSize: r.Range(1, 3)}
+		fillers = r.Range(3, 7)
+	}
+	server := mcp.NewServer(&mcp.Implementation{Name: "s", Version: "1"}, sopts)
+	for i := 0; i < fillers; i++ {
+		server.AddTool(&mcp.Tool{Name: fmt.Sprintf("filler%d", i), InputSchema: json.RawMessage(`{"type":"object"}`)}, func(context.Context, *mcp.CallToolRequest) (*mcp.CallToolResult, error) {
+			return &mcp.CallToolResult{}, nil
+		})
+	}
 	server.AddTool(&mcp.Tool{Name: "t", InputSchema: schema}, func(ctx context.Context, req *mcp.CallToolRequest) (*mcp.CallToolResult, error) {
 		calls.Add(1)
 		got.Store(string(req.Params.Arguments))
@@ -148,7 +160,21 @@ func c12Agreement(c *vh.Case) {
 		c.Violate("client-server-disagree", "client and stateless server both support 2026-07-28 but negotiated %s: the client's server/discover request was not accepted (oauth rotation: %v)", v, oh != nil)
 		return
 	}
-	if _, err := cs.ListTools(ctx, nil); err != nil {
+	if fillers > 0 {
+		seen := false
+		for tool, err := range cs.Tools(ctx, nil) {
+			if err != nil {
+				c.Inconclusive("Tools: %v", err)
+				return
+			}
+			seen = seen || tool.Name == "t"
+		}
+		if !seen {
+			c.Inconclusive("tool t not listed")
+			return
+		}
+		c.Count("agreement_paged", 1)
+	} else if _, err := cs.ListTools(ctx, nil); err != nil {
 		c.Inconclusive("ListTools: %v", err)
 		return
 	}
@@ -204,7 +230,7 @@ func c12Agreement(c *vh.Case) {
 			break
 		}
 	}
-	c.SetSpec(map[string]any{"gen": "agreement", "props": props, "calls": specCalls})
+	c.SetSpec(map[string]any{"gen": "agreement", "props": props, "calls": specCalls, "fillers": fillers})
 	c.Count("agreement_calls", len(specCalls))
 	if nontrivial {
 		c.Nontrivial("agree:" + vh.JSON(props) + vh.JSON(specCalls))
@@ -222,6 +248,7 @@ type c12Req struct {
 	Body      string            `json:"body"`
 	Want      []int             `json:"want_status"`
 	WantCode  int               `json:"want_code,omitempty"`
+	JSONResp  bool              `json:"json_response,omitempty"` // the handler is configured with JSONResponse
 }
 
 func b64h(s string) string { return "=?base64?" + base64.StdEncoding.EncodeToString([]byte(s)) + "?=" }
@@ -232,6 +259,7 @@ func genC12Req(r *vh.Rand) c12Req {
 		q.Listener = "10.1.2.3:8080" // not a loopback listener: any Host is fine
 		q.Host = r.Choose("example.com", "localhost:8080", "evil.test:8080")
 	}
+	q.JSONResp = q.Endpoint != "sse" && r.Chance(1, 3)
 	meta := `"_meta":{"io.modelcontextprotocol/protocolVersion":"2026-07-28","io.modelcontextprotocol/clientCapabilities":{},"io.modelcontextprotocol/clientInfo":{"name":"raw","version":"1"}}`
 	a := c12Strings[r.Intn(len(c12Strings))]
 	n := []int64{0, 7, -3, 1<<53 - 1}[r.Intn(4)]
@@ -291,7 +319,7 @@ func genC12Req(r *vh.Rand) c12Req {
 	}
 	viol := []string{"host", "content-type", "accept", "size", "version-old"}
 	if q.Endpoint == "stateless" {
-		viol = append(viol, "version-mismatch", "version-header-missing", "method-missing", "method-mismatch", "name-missing", "name-mismatch",
+		viol = append(viol, "version-future", "version-mismatch", "version-header-missing", "method-missing", "method-mismatch", "name-missing", "name-mismatch",
 			"param-missing", "param-mismatch", "param-bad-base64", "param-unexpected", "param-int-mismatch", "param-bool-mismatch", "param-deep-mismatch")
 	}
 	if q.Endpoint == "sse" {
@@ -316,6 +344,12 @@ func genC12Req(r *vh.Rand) c12Req {
 		}
 	case "version-old":
 		q.Headers["Mcp-Protocol-Version"] = r.Choose("1999-01-01", "2025-06-17", "garbage")
+		q.Want = []int{400}
+	case "version-future":
+		// header and body agree on a version after 2026-07-28 that the server does not support
+		v := r.Choose("2026-07-29", "2099-12-31", "2027-01-01")
+		q.Headers["Mcp-Protocol-Version"] = v
+		q.Body = strings.Replace(q.Body, `"io.modelcontextprotocol/protocolVersion":"2026-07-28"`, `"io.modelcontextprotocol/protocolVersion":"`+v+`"`, 1)
 		q.Want = []int{400}
 	case "version-mismatch":
 		q.Headers["Mcp-Protocol-Version"] = "2099-01-01"
@@ -392,9 +426,9 @@ func c12Soundness(c *vh.Case) {
 	var sseCancel context.CancelFunc
 	switch q.Endpoint {
 	case "stateless":
-		h = mcp.NewStreamableHTTPHandler(func(*http.Request) *mcp.Server { return server }, &mcp.StreamableHTTPOptions{Stateless: true, MaxRequestBodyBytes: 4096})
+		h = mcp.NewStreamableHTTPHandler(func(*http.Request) *mcp.Server { return server }, &mcp.StreamableHTTPOptions{Stateless: true, MaxRequestBodyBytes: 4096, JSONResponse: q.JSONResp})
 	case "stateful":
-		h = mcp.NewStreamableHTTPHandler(func(*http.Request) *mcp.Server { return server }, &mcp.StreamableHTTPOptions{MaxRequestBodyBytes: 4096})
+		h = mcp.NewStreamableHTTPHandler(func(*http.Request) *mcp.Server { return server }, &mcp.StreamableHTTPOptions{MaxRequestBodyBytes: 4096, JSONResponse: q.JSONResp})
 	case "sse":
 		h = mcp.NewSSEHandler(func(*http.Request) *mcp.Server { return server }, nil)
 	}
